@@ -240,9 +240,22 @@ class CalibrateView:
                     cands.append(a.value)  # type: ignore[union-attr]
         for c in cands:
             if isinstance(c, ast.BinOp) and isinstance(c.op, ast.Mult):
-                for a, b in ((c.left, c.right), (c.right, c.left)):
-                    if isinstance(a, (ast.List, ast.Tuple)) and len(a.elts) == 1:
-                        out.append((a.elts[0], b))
+                factors: list[ast.expr] = []
+
+                def flat(e: ast.expr) -> None:
+                    if isinstance(e, ast.BinOp) and isinstance(e.op, ast.Mult):
+                        flat(e.left)
+                        flat(e.right)
+                    else:
+                        factors.append(e)
+                flat(c)
+                lists = [f for f in factors if isinstance(f, (ast.List, ast.Tuple)) and len(f.elts) == 1]
+                rest = [f for f in factors if f not in lists]
+                if len(lists) == 1 and rest:
+                    m = rest[0]
+                    for r in rest[1:]:
+                        m = ast.fix_missing_locations(ast.copy_location(ast.BinOp(left=m, op=ast.Mult(), right=r), c))
+                    out.append((lists[0].elts[0], m))
             elif isinstance(c, ast.Call) and (dotted(c.func) or "").split(".")[-1] == "full" and len(c.args) >= 2:
                 out.append((c.args[1], c.args[0]))
             elif isinstance(c, ast.Call) and (dotted(c.func) or "").split(".")[-1] == "repeat" and len(c.args) >= 2:
